@@ -490,6 +490,11 @@ func checkTyped(o *sim.Outcome, w *world, ri int, run *GRun, ob *runObs, kind st
 	if panicFault && ob.escaped == nil && !gensign.IsErrorOfType(ob.result, gensign.Panic) {
 		o.Fail("C04.kind", "panic_not_reported", step, "a handler or signer panicked but the run returned %q", kind)
 	}
+	for _, f := range ob.faults {
+		if f.site == "stub" && f.fault == "addfail" && ob.escaped == nil && !panicFault && !gensign.IsErrorOfType(ob.result, gensign.AgentOpCertErr) {
+			o.Fail("C04.kind", "agent_key_error_lost", step, "agent key %d refused to take its certificates but the run returned %q", f.index+1, kind)
+		}
+	}
 	malformedReply := false
 	for _, f := range ob.faults {
 		switch f.fault {
